@@ -361,6 +361,13 @@ def run_case(case):
     seen.add(tag)
     for w in range(nworld):
       Ad = dense_D(mjm, A[w]) if kind == "factor_solve_lu" else mw.dense_M(mjm, A[w])
+      if kind != "factor_solve_lu" and np.all(np.isfinite(Ad)):
+        ev = np.linalg.eigvalsh(Ad)
+        if ev[0] <= 1e-6 * ev[-1]:
+          # the Cholesky/LDL routines document "assumed spd": a velocity-dependent actuator gain with negative damping made
+          # M - h*qDeriv indefinite; nothing to decide about the solver here
+          rec.count("pipeline_system_not_spd")
+          continue
       judge_solve(rec, "pipeline:" + tag, Ad, x[w][:nv], y[w][:nv], f"world {w} integrator {case['integrator']} trees {lay}")
       if not is_M and w == 0:
         dev = float(np.abs(Ad - mw.dense_M(mjm, Mcsr[w])).max())
